@@ -8,6 +8,7 @@
     blobs <root> <s>          -> ok <hex> mk=<hex> | err mk=!     (server.GetBlobsPath + the directory its MkdirAll creates)
     canon <s>                 -> <hex>                            (server.canonicalDigest)
     enum <n> <rel>*           -> h,ns,m,t=<opened rel>;...         (server.Manifests over the depth-4 regular files, input order)
+    hname <root> <s>          -> ok <hex> | invalid   (parse step of a name-taking handler → the manifest path GetModel opens)
     nfold <a> <b>             -> 0|1     (model.ParseName(a).EqualFold(model.ParseNameBare(b)); a must be a valid name)
     copy <src> <dst>          -> accepted | refused               (guard of server.CopyModel on model.ParseName of both)
     p2n <s>                   -> <hex>                            (blob.pathToName = what DiskCache.Links yields)
@@ -97,6 +98,11 @@ def handle (toks : List String) : Option String :=
       let rels ← listOf hex
       let shown := (manifestsEnum rels).map fun (n, p) => s!"{showName n}={hexOrDash p}"
       pure (if shown.isEmpty then "-" else joinWith ";" shown)) rest
+  | "hname" :: rest =>
+    runTP (do
+      let root ← hex
+      let s ← hex
+      pure (match handlerName root s with | some p => s!"ok {hexOrDash p}" | none => "invalid")) rest
   | "nfold" :: rest =>
     runTP (do
       let a ← hex
